@@ -27,8 +27,11 @@ def main():
     meta = json.loads((mdir / "meta.json").read_text())
     pid = meta["property"]
     # private scratch paths per evaluation: several evaluations may run at the same time
-    repo = Path("/repo") if inplace else Path(f"/tmp/coordwt_{os.getpid()}")
-    EVAL_COPY = Path(f"/tmp/coordev_{os.getpid()}")
+    # scratch names carry the name of the /verif copy they belong to, so that cleaning up after one copy's
+    # evaluations (by prefix) cannot remove another copy's running evaluation
+    tag = "".join(ch if ch.isalnum() else "_" for ch in str(VERIF).strip("/"))
+    repo = Path("/repo") if inplace else Path(f"/tmp/evwt_{tag}_{os.getpid()}")
+    EVAL_COPY = Path(f"/tmp/evcp_{tag}_{os.getpid()}")
     if not inplace:
         r = sh(f"git -C /repo worktree add --detach {repo} HEAD")
         assert r.returncode == 0, r.stderr
